@@ -45,7 +45,8 @@ Applicable(p, d) ==
     [] d = "badCompressor" -> p \in {"HttpPutZstd", "BatchZstd", "BsZstd"}
     [] d \in {"malformedFrame", "trailingBytes"} -> ZstdTransport(p)
     [] d = "abort" -> p \in {"BsBlobs", "BsZstd", "HttpPut", "FetchBlobSri"}
-    [] d = "zeroLenNonEmptyHash" -> p \in {"HttpPut", "BatchIdentity", "BsBlobs", "SpliceDigest"}
+    [] d = "zeroLenNonEmptyHash" -> p \in {"HttpPut", "HttpPutZstd", "BatchIdentity", "BatchZstd", "BsBlobs", "BsZstd",
+                                          "SpliceDigest", "FetchBlobSri"}   \* FetchBlob: the origin answers 200 with an empty body
     [] OTHER -> FALSE
 
 \* Paths that look the digest up first and acknowledge without reading data
